@@ -70,7 +70,8 @@ def run(tier, rep, ev):
     cases = []
     for i, t in enumerate(ts):
         has_link = any(n["k"] == "link" for n in t)
-        for deref in ((False, True) if has_link and i % 2 == 0 else (False,)):
+        # dereference only where following links ends (Tree.tla's Acyclic): two directories linking to each other unfold without end
+        for deref in ((False, True) if has_link and i % 2 == 0 and not trees.has_cycle(t) else (False,)):
             via = "shutil" if (i % 7 == 0 and not deref) else "api"
             cases.append({"nodes": t, "deref": deref, "seed": i, "via": via, "arcname": "given/name" if (i % 5 == 0 and via == "api") else None,
                           "password": "pw" if i % 11 == 0 and via == "api" else None, "wd": os.path.join(base, f"t{len(cases)}")})
